@@ -187,7 +187,12 @@ func (t *Trie) Replace(text string, repl string) string {
 // PrefixSearch returns all patterns that have the key as prefix.
 func (t *Trie) PrefixSearch(key string) []string {
 	node := &t.root
-	for _, v := range key {
+	for i, v := range key {
+		if v == utf8.RuneError && !strings.HasPrefix(key[i:], "\uFFFD") {
+			// a byte that is not part of a rune: no pattern starts with this key (range decodes
+			// the byte as U+FFFD, which must not be taken for the pattern rune U+FFFD)
+			return nil
+		}
 		idx := t.index(node.children, v)
 		if idx < 0 {
 			return nil
@@ -251,7 +256,11 @@ func (t *Trie) FuzzySearch(key string) []string {
 	}
 
 	node := &t.root
-	for _, v := range key {
+	for i, v := range key {
+		if v == utf8.RuneError && !strings.HasPrefix(key[i:], "\uFFFD") {
+			// see PrefixSearch: the byte lengths stored in the nodes only fit keys made of runes
+			return nil
+		}
 		idx := t.index(node.children, v)
 		for node != &t.root && idx < 0 {
 			node = node.fail
